@@ -41,16 +41,16 @@ def patched_cfg(wd, name, flags, extra=None):
     return p
 
 
-def leg_m(wd, tier):
+def leg_m(wd, tier, flags):
     jobs = [("design", "Form_quick.cfg" if tier == "quick" else "Form_mc.cfg", 6 if tier == "quick" else 8),
-            ("implementation-shaped", "Form_impl_quick.cfg" if tier == "quick" else "Form_impl.cfg", 2 if tier == "quick" else 4)]
+            ("implementation-shaped", patched_cfg(wd, "Form_impl_quick.cfg" if tier == "quick" else "Form_impl.cfg", flags), 2 if tier == "quick" else 4)]
     out = []
     with cf.ThreadPoolExecutor(max_workers=2) as ex:
         futs = [(what, cfg, ex.submit(vlib.run_tlc, wd, "MCForm", cfg, workers=w, timeout=1500)) for what, cfg, w in jobs]
         for what, cfg, fu in futs:
             r = fu.result()
-            vlib.tlc_must_pass(r, "Form %s (%s)" % (what, cfg))
-            log("  M: Form %s (%s): %d distinct states, %d transitions, depth %d, %.1fs" % (what, cfg, r.distinct, r.generated, r.depth, r.wall))
+            vlib.tlc_must_pass(r, "Form %s (%s)" % (what, os.path.basename(cfg)))
+            log("  M: Form %s (%s): %d distinct states, %d transitions, depth %d, %.1fs" % (what, os.path.basename(cfg), r.distinct, r.generated, r.depth, r.wall))
             out.append(r)
     return out
 
@@ -74,7 +74,7 @@ def export_paths(wd, flags, extra=None, tag=None):
 
 
 def slim(p):
-    return [{"act": e["act"], "to": {k: e["to"][k] for k in ("n", "rRes", "hRes", "hCon", "rCon", "dead", "net", "act", "out")}} for e in p]
+    return [{"act": e["act"], "to": {k: e["to"][k] for k in ("n", "rRes", "hRes", "hCon", "rCon", "dead", "net", "active", "out")}} for e in p]
 
 
 def leg_r(wd, tier, binary, verdict, flags, stub=None, limit=None):
@@ -152,7 +152,7 @@ def validate_file(wd, path, tag, verdict, cfg):
 
 
 def leg_t(wd, tier, binary, verdict, flags, stub=None, ntraces=None):
-    env = {"VERIF_TRACES": ntraces or (48 if tier == "quick" else 600), "VERIF_TLEN": 20 if tier == "quick" else 30, "VERIF_SHARDS": 6}
+    env = {"VERIF_TRACES": ntraces or (48 if tier == "quick" else 1500), "VERIF_TLEN": 20 if tier == "quick" else 30, "VERIF_SHARDS": 6}
     if stub:
         env["VERIF_STUB"] = stub
     res = vlib.go_run(binary, "TestDriver", wd, env=env, timeout=1500)
@@ -180,7 +180,7 @@ def run(tier):
     log("  deviations switched on from open findings: %s" % (sorted(k for k, v in flags.items() if v) or "none"))
     binary = vlib.go_build("formx", wd)
     with cf.ThreadPoolExecutor(max_workers=1) as ex:
-        fm = ex.submit(leg_m, wd, tier)   # TLC (JVM) and the Go harness do not compete for much
+        fm = ex.submit(leg_m, wd, tier, flags)   # TLC (JVM) and the Go harness do not compete for much
         rr = leg_r(wd, tier, binary, verdict, flags)
         tt = leg_t(wd, tier, binary, verdict, flags)
         ms = fm.result()
